@@ -42,6 +42,7 @@ type HistCase struct {
 	Layering string      `json:"layering"` // disjoint | nested
 	Umask    int         `json:"umask"`
 	Loc      string      `json:"loc,omitempty"`       // nested: the backup location
+	CrashAt  []int       `json:"crash_at,omitempty"`  // C02: probe a crash before these primitive calls of each Rollback (default: two indices derived from the case id)
 	Ctor     string      `json:"ctor,omitempty"`      // nested: "newwithfs" = the BackupFS is built by backupfs.NewWithFS(PrefixFS(case root), LocSpell) itself (no spies: no trace, no faults)
 	LocSpell string      `json:"loc_spell,omitempty"` // the spelling of the location handed to the constructor (default Loc)
 	Tree     []Entry     `json:"tree"`
@@ -961,7 +962,98 @@ func runHistCase(c *HistCase, prop string) (*caseOut, error) {
 			}
 		case st.Do == "rollback":
 			e.fired = false
+			// C02, "… a process that crashes at that instant and later reloads the persisted tracking
+			// state can still restore it": at two primitive calls of this Rollback the two trees are
+			// copied as the crash would leave them, and a freshly constructed BackupFS loaded with the
+			// state persisted before the Rollback began rolls the copies back; the base copy must then
+			// be the tree the transaction started from
+			prevPrim := e.onPrim
+			if (prop == "C02" || prop == "") && c.Layering == "disjoint" && c.Ctor == "" && len(c.Faults) == 0 && !skipOracle && !foreignBackup && len(plantedBase) == 0 {
+				if saved, merr := json.Marshal(e.bfs); merr == nil {
+					h := 0
+					for _, ch := range id {
+						h = h*31 + int(ch)
+					}
+					if h < 0 {
+						h = -h
+					}
+					at := map[int]bool{1 + h%7: true, 4 + (h/7)%19: true}
+					if len(c.CrashAt) > 0 {
+						at = map[int]bool{}
+						for _, n := range c.CrashAt {
+							at[n] = true
+						}
+					}
+					nprim := 0
+					absLinks := false
+					for _, d := range [][]string{e.rc.Dump(e.baseSub), e.rc.Dump(e.bakSub)} {
+						for k := 0; k+6 < len(d); k += 7 {
+							if d[k+1] == "link" && strings.HasPrefix(d[k+6], "/") {
+								absLinks = true // absolute targets would keep pointing into the original trees
+							}
+						}
+					}
+					savedLabels := map[string]bool{}
+					for k, v := range out.labels {
+						savedLabels[k] = v
+					}
+					e.onPrim = func(r CallRec) {
+						if prevPrim != nil {
+							prevPrim(r)
+						}
+						nprim++
+						if !at[nprim] || absLinks {
+							return
+						}
+						sub := fmt.Sprintf("/cr%d_%d", txIndex, nprim)
+						if os.MkdirAll(e.rc.Root+sub, 0o755) != nil {
+							return
+						}
+						for _, pair := range [][2]string{{e.baseSub, "/base"}, {e.bakSub, "/bak"}} {
+							if _, err := exec.Command("cp", "-a", e.rc.Root+pair[0], e.rc.Root+sub+pair[1]).CombinedOutput(); err != nil {
+								return
+							}
+						}
+						b1, _ := backupfs.NewPrefixFS(backupfs.NewOSFS(), e.rc.Root+sub+"/base")
+						b2, _ := backupfs.NewPrefixFS(backupfs.NewOSFS(), e.rc.Root+sub+"/bak")
+						second := backupfs.NewBackupFS(b1, b2)
+						if json.Unmarshal(saved, second) != nil {
+							return
+						}
+						// the hypothesis the proof forced (Props.C02.second_rollback_after_crash_…): a tracked
+						// path below a path tracked as a symlink is reached THROUGH the link once the first
+						// Rollback has put it back (K-link-over-tracked)
+						lab := map[string]bool{}
+						for k, v := range savedLabels {
+							lab[k] = v
+						}
+						tm := second.Map()
+						for p, fi := range tm {
+							if fi != nil && fi.Mode()&fs.ModeSymlink != 0 {
+								for q := range tm {
+									if strings.HasPrefix(q, p+"/") {
+										lab["link-over-tracked"] = true
+									}
+								}
+							}
+						}
+						serr := second.Rollback()
+						out.count("c02.second-rollback")
+						got := blankDirTimes(e.rc.Dump(sub + "/base"))
+						if !dumpEqual(s0, got) {
+							v := Violation{Property: "C02", What: fmt.Sprintf("a crash before primitive call #%d of Rollback (%s), then a new BackupFS loaded with the persisted state and Rollback (returned %v): the base is not restored: %s", nprim, r.String(), serr, dumpDiff(s0, got)), Case: c}
+							if k := knownClass("C02", lab); k != "" {
+								v.Known = k
+							}
+							out.viol = append(out.viol, v)
+							at = map[int]bool{}
+						}
+						os.RemoveAll(e.rc.Root + sub)
+					}
+				}
+			}
 			rerr := e.bfs.Rollback()
+			e.onPrim = prevPrim
 			if len(c.Faults) > 0 && !skipOracle {
 				s1f := blankDirTimes(e.rc.Dump(e.baseSub))
 				if e.fired {
